@@ -1,0 +1,35 @@
+//go:build verif
+// +build verif
+
+package raft
+
+// ---------------------------------------------------------------------------
+// majority match index (C02, C06, C11): the value returned is acknowledged by a quorum of the
+// voters of the latest configuration; the leader counts itself only if it is a voter and
+// non-voters are never counted.
+//
+// MatchOf(l)[k]  : what node k has stored: the leader's own last index, or the follower's matchIndex
+// cntge(V, M, S, v) = |{k in S : V[k] and M[k] >= v}|  (T-set counting library)
+// scge(s, n, v)     = number of the first n elements of slice s that are >= v
+
+//@ pure MatchOf(l *leader) int = lam(k, ite(k == l.nid, l.lastLogIndex, l.repls[k].status.matchIndex))
+//@ pure KeyIsID(c Config) bool = forall(k, has(c.Nodes, k) ==> c.Nodes[k].ID == k)
+//@ pure ReplsCover(l *leader) bool = l.repls != nil && forall(k, has(l.configs.Latest.Nodes, k) && k != l.nid ==> has(l.repls, k) && l.repls[k] != nil)
+//@ pure LeaderCache(l *leader) bool = l.numVoters == NumVoters(l.configs.Latest) && l.node == l.configs.Latest.Nodes[l.nid]
+//@ pure QuorumHas(l *leader, v uint64) bool = cntge(col(l.configs.Latest.Nodes, Voter), MatchOf(l), keys(l.configs.Latest.Nodes), v) >= NumVoters(l.configs.Latest)/2 + 1
+
+// sort.Sort on a decrUint64Slice (T-std): a permutation (counts of elements >= v are unchanged
+// for every v), sorted in decreasing order (at least j+1 elements are >= the element at position j).
+//@ func sort.Sort params(data)
+//@   trusted
+//@   requires istype(data, decrUint64Slice)
+//@   modifies contents(as(data, decrUint64Slice))
+//@   ensures forall(v, scge(as(data, decrUint64Slice), len(as(data, decrUint64Slice)), v) == old(scge(as(data, decrUint64Slice), len(as(data, decrUint64Slice)), v)))
+//@   ensures forall(p, base(as(data, decrUint64Slice)) <= p && p < base(as(data, decrUint64Slice)) + len(as(data, decrUint64Slice)) ==> scge(as(data, decrUint64Slice), len(as(data, decrUint64Slice)), raw(as(data, decrUint64Slice), p)) >= p - base(as(data, decrUint64Slice)) + 1)
+
+//@ func (*leader).majorityMatchIndex
+//@   requires l.Raft != nil && l.storage != nil && ReplsCover(l) && KeyIsID(l.configs.Latest) && LeaderCache(l)
+//@   requires NumVoters(l.configs.Latest) >= 1
+//@   ensures [C02.majority] QuorumHas(l, result0)
+//@   loop 1 invariant subset(visitedset(), keys(l.configs.Latest.Nodes)) && 0 <= i && i == cntv(col(l.configs.Latest.Nodes, Voter), visitedset()) && len(matched) == card(keys(l.configs.Latest.Nodes))
+//@   loop 1 invariant forall(v, scge(matched, i, v) == cntge(col(l.configs.Latest.Nodes, Voter), MatchOf(l), visitedset(), v))
